@@ -62,7 +62,15 @@ def journal_specs(maxlen, role_both=True):
 
 def run(ctx):
     out = Outcome()
-    extra = journal_specs(2 if ctx.quick else 4)
+    if ctx.quick:
+        extra = journal_specs(2)
+    else:
+        # all journals up to 3 messages + a seeded sample of 60 000 of the 259 200 four-message ones (memory, time)
+        import random
+        full = journal_specs(4)
+        short = journal_specs(3)
+        rest = full[len(short):]
+        extra = short + random.Random(ctx.seed * 11 + 6).sample(rest, min(60000, len(rest)))
     out.extra["journal_x_request_traces"] = len(extra)
     sessrun.run_property(ctx, out, "C06", extra_specs=extra)
     return out
